@@ -28,6 +28,7 @@ import (
 	"sync"
 	"time"
 
+	"github.com/piotrnar/gocoin/lib/btc"
 	"verif/lib/vlib"
 	"verif/ref/refaddr"
 	"verif/ref/refhd"
@@ -95,7 +96,7 @@ func main() {
 	wg.Add(1)
 	go func() {
 		defer wg.Done()
-		vlib.Parallel(nshards, 6, func(i int) {
+		vlib.Parallel(nshards, 8, func(i int) {
 			out := fmt.Sprintf("%s/lib%d.json", tmp, i)
 			jp := fmt.Sprintf("%s/libjournal%d", tmp, i)
 			args := []string{"libchild", fmt.Sprint(i), fmt.Sprint(seed), fmt.Sprint(perShard), out, jp}
@@ -285,7 +286,7 @@ func genPassword(r *vlib.Rand) ([]byte, string) {
 	case 3:
 		return r.Bytes(1 + r.Intn(64)), "random-bytes"
 	case 4:
-		b := []byte("zażółć gęślą jaźń ☃ パスワード")
+		b := []byte("za\u017c\u00f3\u0142\u0107 g\u0119\u015bl\u0105 ja\u017a\u0144 \u2603 \u30d1\u30b9\u30ef\u30fc\u30c9")
 		return b[:len(b)-r.Intn(5)], "utf8"
 	case 5:
 		b := []byte("password\n")
@@ -406,7 +407,7 @@ func genScenario(r *vlib.Rand, id int) *scenario {
 		s.Scrypt = 1 + r.Intn(12)
 	}
 	if r.Intn(4) == 0 {
-		pre := []string{"salt", "my seed=with=equals", "#hash", "żółw", "x y z", "0"}
+		pre := []string{"salt", "my seed=with=equals", "#hash", "\u017c\u00f3\u0142w", "x y z", "0"}
 		s.SeedPrefix = pre[r.Intn(len(pre))]
 	}
 	if s.Type == 4 {
@@ -831,6 +832,16 @@ func runScenario(bin, dir string, sc *scenario) (o scOutcome) {
 		o.counts["process_runs"]++
 	}
 	if outs[0].exit != 0 {
+		// triage: the wallet verifies every key pair while listing and aborts on a bad one; is it
+		// the compressed-public-key parity defect of lib/secp256k1 (root-cause class pubkey-parity/*)?
+		for i := range exp.keys {
+			if g := gocoinPub(exp.keys[i].priv); len(g) == 33 && !bytes.Equal(g, exp.keys[i].pub) && bytes.Equal(g[1:], exp.keys[i].pub[1:]) {
+				viol("pubkey-parity/wallet-aborts-listing", "the wallet cannot list its keys: a compressed public key gets the wrong 02/03 prefix and the wallet's own VerifyKeyPair aborts",
+					map[string]interface{}{"index": i, "private_key": hex.EncodeToString(exp.keys[i].priv), "gocoin_pubkey": hex.EncodeToString(g), "model_pubkey": hex.EncodeToString(exp.keys[i].pub), "stderr": vlib.Tail([]byte(outs[0].stderr), 600)})
+				o.counts["keys_checked"] += int64(i)
+				return
+			}
+		}
 		viol(fmt.Sprintf("wallet-exit/list/%s", fam), fmt.Sprintf("wallet -l exits with %d", outs[0].exit), map[string]interface{}{"stderr": vlib.Tail([]byte(outs[0].stderr), 1500), "stdout": vlib.Tail([]byte(outs[0].stdout), 1500)})
 		return
 	}
@@ -1071,6 +1082,11 @@ func runScenario(bin, dir string, sc *scenario) (o scOutcome) {
 		}
 	}
 	return
+}
+
+func gocoinPub(key []byte) (pub []byte) {
+	defer func() { recover() }()
+	return btc.PublicFromPrivate(key, true)
 }
 
 func netName(sc *scenario) string {
